@@ -25,6 +25,20 @@ def run(ctx):
                 "interval, scheduler), seeded; a case = one committed event; distinct non-trivial class = (configuration, "
                 "committing event-handler class)")
     trs = runcommon.traces(ctx, with_resumed=True)
+    # the multi-process mediator is a supported way of running: its histories are judged by the oracle too (no model replay)
+    try:
+        mptrs = [t for t in runs.run_jobs(ctx.root, runcommon.mp_jobs(ctx), workers=4)]
+    except Exception as e:  # noqa
+        mptrs = []
+        ctx.disagree("run.multi-process-histories", {}, "evaluated", repr(e))
+    ctx.count("mp-histories", sum(1 for t in mptrs if t["legs"]))
+    for tr in mptrs:
+        if not tr["legs"]:
+            ctx.count("mp-trace-failed:" + str(tr["end"])[:60])
+            continue
+        stats = {}
+        runs.oracle_c07(tr, ctx.fail, stats)
+        runcommon.record_trace_stats(ctx, tr, stats)
     for tr in trs:
         meta = tr["meta"]
         if not tr["legs"]:
